@@ -319,10 +319,12 @@ fn read_codec(metadata: &HashMap<String, Value>) -> AvroResult<Codec> {
                     #[cfg(feature = "bzip")]
                     Codec::Bzip2(_) => {
                         use crate::Bzip2Settings;
+                        // An empty level is as good as no level at all
                         if let Some(Value::Bytes(bytes)) =
                             metadata.get("avro.codec.compression_level")
+                            && let Some(level) = bytes.first()
                         {
-                            Ok(Codec::Bzip2(Bzip2Settings::new(bytes[0])))
+                            Ok(Codec::Bzip2(Bzip2Settings::new(*level)))
                         } else {
                             Ok(codec)
                         }
@@ -330,10 +332,12 @@ fn read_codec(metadata: &HashMap<String, Value>) -> AvroResult<Codec> {
                     #[cfg(feature = "xz")]
                     Codec::Xz(_) => {
                         use crate::XzSettings;
+                        // An empty level is as good as no level at all
                         if let Some(Value::Bytes(bytes)) =
                             metadata.get("avro.codec.compression_level")
+                            && let Some(level) = bytes.first()
                         {
-                            Ok(Codec::Xz(XzSettings::new(bytes[0])))
+                            Ok(Codec::Xz(XzSettings::new(*level)))
                         } else {
                             Ok(codec)
                         }
@@ -341,10 +345,12 @@ fn read_codec(metadata: &HashMap<String, Value>) -> AvroResult<Codec> {
                     #[cfg(feature = "zstandard")]
                     Codec::Zstandard(_) => {
                         use crate::ZstandardSettings;
+                        // An empty level is as good as no level at all
                         if let Some(Value::Bytes(bytes)) =
                             metadata.get("avro.codec.compression_level")
+                            && let Some(level) = bytes.first()
                         {
-                            Ok(Codec::Zstandard(ZstandardSettings::new(bytes[0])))
+                            Ok(Codec::Zstandard(ZstandardSettings::new(*level)))
                         } else {
                             Ok(codec)
                         }
